@@ -854,3 +854,107 @@ Example C19_resolve_nonvacuous :
       Some [(53, [5]); (51, [0;0;2;88]); (1, [255;255;255;255]); (54, [10;9;9;9]); (3, [10;0;0;254]); (121, [0;10;0;0;254]); (66, [116;102;116;112])].
 Proof. cbv zeta. vm_compute. repeat split. eexists. repeat split. eexists. repeat split. Qed.
 Print Assumptions C19_resolve_nonvacuous.
+
+(* ================================================================ deepen round 2 *)
+(* ---------------------------------------------------------------- DHCPv6 local server: client message + resolved lease -> ADVERTISE / REPLY *)
+(* plugins/dhcp6/local HandlePacket for SOLICIT / REQUEST with a resolved lease on a fresh provider (handleSolicit ->
+   handleSolicitResolved -> buildAdvertise, handleRequest -> handleRequestResolved -> buildReply): whatever the client's
+   message parses to, the answer re-parses to ADVERTISE (for SOLICIT) / REPLY, the client's transaction id and DUID, the
+   server DUID, an IA_NA / IA_PD exactly when the client asked for one AND the resolver supplied an address / prefix, with
+   the CLIENT's IAID, the resolved address / prefix (+ length) and lifetimes, T1 = pref/2, T2 = pref*4/5; the resolved
+   DNS servers; no status code *)
+Theorem C19_dhcp6_server_end_to_end : forall sduid cmsg r qc duid,
+  parse_message6 cmsg = Some qc -> q_client qc = Some duid -> length (q_txid qc) = 3%nat ->
+  blen duid < 65536 -> blen sduid < 65536 ->
+  match q_iana qc, r6_na r with Some ia, Some (a, pr, va) => p_iaid ia < 4294967296 /\ pr < 4294967296 /\ va < 4294967296 /\ length a = 16%nat | _, _ => True end ->
+  match q_iapd qc, r6_pd r with Some ia, Some (ip, ones, pr, va) => p_iaid ia < 4294967296 /\ pr < 4294967296 /\ va < 4294967296 /\ length ip = 16%nat /\ ones <= 128 | _, _ => True end ->
+  Forall (fun d => exists a, d = Some a /\ length a = 16%nat) (r6_dns r) -> (length (r6_dns r) < 4096)%nat -> Forall raw6_ok (r6_opts r) ->
+  exists out q, handle_resolved6 sduid cmsg r = Some out /\ parse_message6 out = Some q /\
+    q_type q = (if q_type qc =? 1 then 2 else 7) /\ q_txid q = q_txid qc /\ q_client q = Some duid /\ q_server q = Some sduid /\
+    q_iana q = match q_iana qc, r6_na r with
+               | Some ia, Some (a, pr, va) => Some (ia_view (p_iaid ia) (pr / 2) (pr * 4 / 5) a 0 pr va) | _, _ => None end /\
+    q_iapd q = match q_iapd qc, r6_pd r with
+               | Some ia, Some (ip, ones, pr, va) => Some (ia_view (p_iaid ia) (pr / 2) (pr * 4 / 5) ip ones pr va) | _, _ => None end /\
+    q_dns q = map opt_bytes (r6_dns r) /\ q_status q = None.
+Proof. exact handle_resolved6_fields. Qed.
+Print Assumptions C19_dhcp6_server_end_to_end.
+
+(* pkg/dhcp.ResolveV6: which address / prefix / lifetimes / DNS are resolved.  Lifetimes: the pool's value when > 0,
+   otherwise the profile's, otherwise 3600 / 7200 (C19_resolve_v6_lifetimes) *)
+Theorem C19_resolve_v6 : forall cx pf a,
+  c6_addr cx = Some a ->
+  exists r, resolve_v6 cx pf = Some r /\
+    r6_na r = Some (a, fst (lifetimes6 pf (find_pool6 a (f6_iana pf))), snd (lifetimes6 pf (find_pool6 a (f6_iana pf)))) /\
+    r6_pd r = match c6_prefix cx with
+              | Some (ip, ones) => Some (ip, ones, fst (lifetimes6 pf (find_pool6 ip (f6_pd pf))), snd (lifetimes6 pf (find_pool6 ip (f6_pd pf))))
+              | None => None end /\
+    r6_dns r = match c6_dns cx with [] => filter (fun d : option bytes => match d with Some _ => true | None => false end) (f6_dns pf) | l => l end.
+Proof. exact resolve_v6_spec. Qed.
+Print Assumptions C19_resolve_v6.
+Theorem C19_resolve_v6_lifetimes : forall pf pool,
+  lifetimes6 pf pool =
+  (match pool with Some p => if 0 <? p6_pref p then p6_pref p else dflt (f6_pref pf) 3600 | None => dflt (f6_pref pf) 3600 end,
+   match pool with Some p => if 0 <? p6_valid p then p6_valid p else dflt (f6_valid pf) 7200 | None => dflt (f6_valid pf) 7200 end).
+Proof. exact lifetimes6_spec. Qed.
+Print Assumptions C19_resolve_v6_lifetimes.
+
+(* profile (no lifetimes set), one IANA pool with preferred 600 and no valid time, one PD pool; a SOLICIT asking for both *)
+Example C19_dhcp6_server_nonvacuous :
+  let a := [32;1;13;184] ++ zeros 11 ++ [7] in
+  let pfx := [32;1;13;184;0;1;0;9] ++ zeros 8 in
+  let pf := {| f6_pref := 0; f6_valid := 0; f6_dns := [Some ([32;1;13;184] ++ zeros 11 ++ [83]); None];
+               f6_iana := [{| p6_net := Some ([32;1;13;184] ++ zeros 12, repeat 255 8 ++ zeros 8); p6_pref := 600; p6_valid := 0;
+                              p6_opts := [(24, Some [1;97;0]); (31, None)] |}];
+               f6_pd := [{| p6_net := Some ([32;1;13;184;0;1] ++ zeros 10, repeat 255 6 ++ zeros 10); p6_pref := 0; p6_valid := 900; p6_opts := [] |}] |} in
+  let cx := {| c6_addr := Some a; c6_prefix := Some (pfx, 64); c6_dns := [] |} in
+  let cmsg := [1; 9;8;7] ++ opt6 1 [0;1;0;1] ++ opt6 3 ([0;0;0;42] ++ zeros 8) ++ opt6 25 ([0;0;0;43] ++ zeros 8) in
+  exists r out q, resolve_v6 cx pf = Some r /\ handle_resolved6 [0;3;0;1] cmsg r = Some out /\ parse_message6 out = Some q /\
+    q_type q = 2 /\ q_txid q = [9;8;7] /\ q_client q = Some [0;1;0;1] /\
+    q_iana q = Some (ia_view 42 300 480 a 0 600 7200) /\ q_iapd q = Some (ia_view 43 1800 2880 pfx 64 3600 900) /\
+    q_dns q = [[32;1;13;184] ++ zeros 11 ++ [83]].
+Proof. cbv zeta. do 3 eexists. vm_compute. repeat split. Qed.
+Print Assumptions C19_dhcp6_server_nonvacuous.
+
+(* ---------------------------------------------------------------- ResolveV4: every branch *)
+(* the precedence rules of ResolveV4 as equations: AAA gateway > the matching pool's gateway (no fallback when that pool
+   names an unparseable one) > profile gateway; server-id = configured else router; AAA DNS > profile DNS; lease default
+   3600; unnumbered-ptp: /32 and a default route iff a router exists; otherwise AAA netmask > pool netmask > none *)
+Theorem C19_resolve_v4_precedence : forall cx pf,
+  let r := resolve_v4 cx pf in let pool := find_pool (cx_addr cx) (pf_pools pf) in
+  rs_yip r = Some (cx_addr cx) /\
+  rs_router r = match cx_gw cx with
+                | Some g => Some g
+                | None => match pool with Some p => if pl_gw_set p then pl_gw p else pf_gw pf | None => pf_gw pf end end /\
+  rs_sid r = first_some (pf_sid pf) (rs_router r) /\
+  rs_dns r = match cx_dns cx with [] => filter (fun d : option bytes => match d with Some _ => true | None => false end) (pf_dns pf) | l => l end /\
+  rs_lease r = (if pf_lease pf =? 0 then 3600 else pf_lease pf) /\
+  (pf_unnumbered pf = true -> rs_mask r = [255;255;255;255] /\
+     rs_routes r = match rs_router r with Some _ => [(0, Some (v4in6_prefix ++ [0;0;0;0]), rs_router r)] | None => [] end) /\
+  (pf_unnumbered pf = false -> rs_routes r = [] /\
+     rs_mask r = match cx_mask cx with
+                 | Some m => m
+                 | None => match pool with Some p => match pl_net p with Some n => snd n | None => [] end | None => [] end end).
+Proof. exact resolve_v4_precedence. Qed.
+Print Assumptions C19_resolve_v4_precedence.
+
+(* and whichever branch was taken (AAA overrides, no pool, ...): when the resolved values are IPv4-typed the client decodes
+   exactly them; together with C19_resolve_v4_precedence this is the end-to-end statement for every configuration *)
+Theorem C19_resolve_reply_general : forall ovf pad xid ci hw mt cx pf s4,
+  let r := resolve_v4 cx pf in
+  xid < 4294967296 -> (length hw <= 16)%nat -> rs_lease r < 4294967296 -> ip_ok ci -> bytes_ok hw ->
+  ip_ok (rs_yip r) -> ip_ok (rs_router r) -> ip_ok (rs_sid r) -> bytes_ok (rs_mask r) -> Forall ip_ok (rs_dns r) ->
+  Forall route_ok (rs_routes r) -> Forall (fun x => ip_ok (snd (fst x)) /\ ip_ok (snd x)) (rs_routes r) -> Forall raw_ok (rs_opts r) ->
+  to4 (match rs_sid r with Some _ => rs_sid r | None => rs_router r end) = Some s4 ->
+  exists rt payload view,
+    (blen payload <= 65507 ->
+       exists f, resolve_and_reply Repaired ovf pad xid ci hw mt cx pf = Ok (Some f) /\
+                 frame4_ok f payload /\ frame4_fields f s4 bcast 67 68 /\ firstn 2 (skipn 26 f) <> [0; 0]) /\
+    ref_decode4 payload = Some view /\ v_xid view = xid /\ v_yiaddr view = ip4_field (rs_yip r) /\ v_siaddr view = s4 /\
+    v_end view = EndSeen (zeros pad) /\
+    (forall code, opt_value code (v_opts view) =
+       concat (map snd (filter (has_code code) ((53, [mt mod 256]) ::
+          resolved_opts (rs_lease r) (rs_mask r) (rs_sid r) (rs_router r) (rs_dns r) rt (rs_routes r) (rs_opts r))))) /\
+    ((length (rs_mask r) <= 255)%nat -> (length (dns_data (rs_dns r)) <= 255)%nat -> (length rt <= 255)%nat ->
+       v_opts view = (53, [mt mod 256]) :: resolved_opts (rs_lease r) (rs_mask r) (rs_sid r) (rs_router r) (rs_dns r) rt (rs_routes r) (rs_opts r)).
+Proof. exact resolve_reply_general. Qed.
+Print Assumptions C19_resolve_reply_general.
